@@ -225,14 +225,42 @@ def build_query(case, objs, containers=None, negate: int = 0, quant: Optional[st
     ``negate`` wraps the whole condition in that many negations (used by C03).
     """
     V, conts = declare_vars(case, objs, containers)
+    earlier = list(case.get("earlier_queries_sharing_comparisons") or [])
     if case.get("prelude_sharing_comparisons") is not None:
-        # an EARLIER query over the same variables and the same selection that contains the same comparison OBJECTS
+        earlier.insert(0, {"cond": case["prelude_sharing_comparisons"], "take": None})
+    if earlier:
+        # EARLIER queries over the same variables and the same selection that contain the same comparison OBJECTS
+        # (c = x.a == 1 built once and used in several queries); each is evaluated to completion, or given up after
+        # `take` results, before the next one is built
         if not isinstance(V, Vars):
             V = Vars(V)
-        V.cmemo, V.cused = {}, set()
-        pre = build_over(V, dict(case, cond=case["prelude_sharing_comparisons"], split_top=False, quant="an"), conts=conts)
-        for _ in pre.q.evaluate():
-            pass
+        V.cmemo = {}
+
+        def run_earlier(pre, e):
+            it = pre.q.evaluate()
+            n = 0
+            for _ in it:
+                n += 1
+                if e.get("take") is not None and n >= e["take"]:
+                    break
+            close = getattr(it, "close", None)
+            if close:
+                close()
+        if case.get("all_queries_built_before_any_is_evaluated"):
+            # (when the query negates a shared comparison, not_() has rewritten it in place before the earlier queries
+            # run: they then mean something else, which does not matter here, their results are not looked at)
+            pres = []
+            for e in earlier:
+                V.cused = set()
+                pres.append(build_over(V, dict(case, cond=e["cond"], split_top=False, quant="an"), conts=conts))
+            V.cused = set()
+            main = build_over(V, case, negate, quant, negate_desc, neg_form, conts)
+            for pre, e in zip(pres, earlier):
+                run_earlier(pre, e)
+            return main
+        for e in earlier:
+            V.cused = set()
+            run_earlier(build_over(V, dict(case, cond=e["cond"], split_top=False, quant="an"), conts=conts), e)
         V.cused = set()
     if case.get("prelude") is not None:
         # an EARLIER query over the same variables and the same selection, built from the same mapping expression
